@@ -50,6 +50,42 @@ def gen_tasks(tier, seed):
             # scale invariance
             c_ = rng.choice(SCALES)
             tasks.append({**base, "scale": c_, "kwargs": {"weight_type": "float"}})
+    # deterministic flows for the min-gen-set lower bound: one walk through a self loop taken m = 2, 3 times with weight 1, 2
+    # (the loop's flow value is then a multiple of a walk weight, not a sub-sum)
+    for name, es in F.CURATED_DIGRAPHS.items():
+        G = nx.DiGraph(es)
+        S_, T_ = [v for v in G if G.in_degree(v) == 0], [v for v in G if G.out_degree(v) == 0]
+        for (u, v) in es:
+            if u != v:
+                continue
+            try:
+                p1 = min((nx.shortest_path(G, s_, u) for s_ in S_ if nx.has_path(G, s_, u)), key=len)
+                p2 = min((nx.shortest_path(G, u, t_) for t_ in T_ if nx.has_path(G, u, t_)), key=len)
+            except ValueError:
+                continue
+            for m_ in (2, 3):
+                for w_ in (1, 2):
+                    walk = p1 + [u] * m_ + p2[1:]
+                    fl = {e: 0 for e in es}
+                    for e in zip(walk[:-1], walk[1:]):
+                        fl[e] += w_
+                    # the other edges must carry flow too (positive flow): add one covering walk set of weight 1 if needed
+                    ok_ = True
+                    for (x, y) in [e for e in es if fl[e] == 0]:
+                        if fl[(x, y)] > 0:
+                            continue
+                        try:
+                            q1 = min((nx.shortest_path(G, s_, x) for s_ in S_ if nx.has_path(G, s_, x)), key=len)
+                            q2 = min((nx.shortest_path(G, y, t_) for t_ in T_ if nx.has_path(G, y, t_)), key=len)
+                        except ValueError:
+                            ok_ = False
+                            break
+                        for e in zip((q1 + q2)[:-1], (q1 + q2)[1:]):
+                            fl[e] += 4            # heavy covering walk for the edges the loop walk does not use
+                    if not ok_ or max(fl.values()) > 12:
+                        continue
+                    tasks.append({"name": name, "cls": "MinFlowDecompCycles", "starts": [], "ends": [], "ignored": [], "constraints": [], "edges": I.with_flow(es, fl),
+                                  "kwargs": {"weight_type": "int", "optimization_options": {"use_min_gen_set_lowerbound": True}}})
     for i, t in enumerate(tasks):
         t["tid"] = i
     return tasks
